@@ -15,6 +15,11 @@
 (*   Deliver                    a remote address book receives one of the   *)
 (*                              published records (any order, duplicates)   *)
 (*                                                                          *)
+(* The wall clock is in MICROSECONDS, the unit `Timestamp` stores.  ASSUMPTION *)
+(* bound by the harness: the sub-microsecond part of the OS clock never      *)
+(* matters - every reading `wall` is replayed as wall us + {0, 1, 500, 999}  *)
+(* ns and must give the same result.                                         *)
+(*                                                                          *)
 (* A timestamp is a pair <<t, l>> of naturals.  The wall clock is NOT a     *)
 (* variable: every reading is an arbitrary natural chosen in the action     *)
 (* (earlier, equal or later than anything read before).                     *)
